@@ -788,6 +788,20 @@ def mutate_case(R, r, t, d, e, obj, view, cls, cache, buf, ops, exp, cctx, sx):
                     else:
                         cont[s_[1] if len(s_[1]) > 1 else s_[1][0]] = arg2
                     hname += " (kept nested handle)"
+                elif kind == "set" and st[0] in ("struct", "array") and r.random() < 0.5:
+                    # the whole update goes through a handle of the element itself (what `parent.field = value` does internally
+                    # with a temporary view): that handle must read the new value afterwards - its own caches included
+                    own = nav(h, path)
+                    own._update(arg2)
+                    hname += " (the element's own handle)"
+                    R.tags["op.set.own-handle"] += 1
+                    try:
+                        seen, fresh_ = deep_str(st, own, cache), deep_str(st, nav(h, path), cache)
+                    except Exception as ex:
+                        seen, fresh_ = "EXC " + exc_name(ex), None
+                    if seen != fresh_:
+                        R.fail("C10:own-handle-stale", f"{sx[:200]}: after `x = obj{pstr(path)}; x._update({repr(nd_)[:80]})` the handle x reads "
+                               f"{seen[:140]}, a fresh view of the same element {str(fresh_)[:140]}", dict(cctx, path=pstr(path), assigned=repr(nd_)[:400]))
                 else:
                     nav_set(h, path, arg2)
                 res = "ok"
@@ -995,6 +1009,23 @@ def run_resplit(R, r, n):
             kept = [nav(h, path) for h in (obj, view)]
             _vs1, arg1 = vsexp(inner, v1, cache, "py")
             h = r.choice([obj, view])
+            if r.random() < 0.4:
+                # the replacement goes through a handle of the ELEMENT itself (also: a stand-alone element): that very handle must
+                # read the new value afterwards (its own cached offsets included) - this is not the known finding O-30
+                own = nav(h, path) if r.random() < 0.7 else T.build(inner, cache)(vsexp(inner, v0, cache, "py")[1], _buffer=buf)
+                src = T.build(inner, cache)(arg1, _buffer=r.choice([buf, xo.ContextCpu().new_buffer(64)]))
+                # a struct takes another division only from an INSTANCE (binary copy); plain data is assigned field by field and a
+                # dynamic field cannot change its size; an array re-plans its items from plain data too
+                own._update(arg1 if kind == "items" and r.random() < 0.5 else src)
+                R.tags["resplit.own-handle"] += 1
+                try:
+                    seen = deep_str(inner, own, cache)
+                except Exception as ex:
+                    seen = "EXC " + type(ex).__name__ + " " + str(ex)[:60]
+                if seen != expect_str(inner, v1, cache):
+                    R.fail("C10:own-handle-stale", f"{sx[:200]}: x = the element {pstr(path)} (or a stand-alone {T.sexp(inner)[:80]}); x._update(value of the "
+                           f"same size, other division): x reads {seen[:120]}, the assigned value is {expect_str(inner, v1, cache)[:120]}", ctx)
+                continue
             # an existing object of the element's type (a dictionary / list would be assigned part by part)
             nav_set(h, path, T.build(inner, cache)(arg1, _buffer=r.choice([buf, xo.ContextCpu().new_buffer(64)])))
         except Exception as ex:
